@@ -52,6 +52,47 @@ def w_pairs(exe, pairs, src):
     return part
 
 
+def w_invalid_pairs(exe, pairs, src):
+    """U spelling refused by the IDN library for an IDNA violation  =>  its Punycode (A-label) spelling is refused in mode 6531 as
+    well (the ASCII modes know nothing about IDNA and are not judged here).  If this libidn2 accepts the U spelling after all,
+    the pair falls back to the ordinary U == A equivalence."""
+    part = TG.new_part()
+    cnt = part["counters"]
+    mdl = _model.Model()
+    lines = []
+    for U, A in pairs:
+        lines.append(driver.A_line(b"x@" + U, sections=1 | 4 | 8, modes=8, tlds=3, allow=mdl.all_bits))
+        lines.append(driver.A_line(b"x@" + A, sections=1 | 4 | 8, modes=8, tlds=3, allow=mdl.all_bits))
+    recs, crashes = driver.run_lines_resilient(exe, lines)
+    for idx, sig, err in crashes:
+        part["viol"].append(("crash/%s" % sig, {"op": lines[idx] if idx >= 0 else ""}, {"stderr": err[-1500:]}))
+    for i, (U, A) in enumerate(pairs):
+        ru, ra = recs[2 * i], recs[2 * i + 1]
+        if ru is None or ra is None or not ru.get("dom") or not ra.get("dom"):
+            continue
+        cnt["invalid-pairs"] += 1
+        urc = ru["dom"][8]
+        for t in (0, 1):
+            hu, ha = ru["hl"][str(6 + t)], ra["hl"][str(6 + t)]
+            if urc != 0:
+                cnt["invalid-pairs.u-refused-by-idn-library"] += 1
+                if hu[0]:
+                    part["viol"].append(("invalid/u-spelling-accepted", {"u_spelling": core.b2s(U)}, {"6531": hu, "idn2_rc": urc, "source": src}))
+                if ha[0]:
+                    part["viol"].append(("invalid/a-spelling-accepted-while-u-spelling-violates-idna",
+                                         {"u_spelling": core.b2s(U), "a_spelling": core.b2s(A)},
+                                         {"6531_on_a": ha, "idn2_rc_on_u": urc, "idn2_rc_on_a": ra["dom"][8], "tld_check": t, "source": src}))
+            else:
+                cnt["invalid-pairs.u-accepted-by-this-libidn2"] += 1
+                if bytes.fromhex(ru["dom"][9]) == OD._lower_ascii(A) and hu[:2] + hu[3:7] != ha[:2] + ha[3:7]:
+                    part["viol"].append(("u-vs-a/6531/%s" % ("tld" if t else "syntax"), {"u_spelling": core.b2s(U), "a_spelling": core.b2s(A)},
+                                         {"u": hu, "a": ha, "source": src}))
+    part["distinct"] = len(pairs)
+    if pairs:
+        part["samples"].append({"source": src, "u_spelling": core.b2s(pairs[0][0]), "a_spelling": core.b2s(pairs[0][1])})
+    return part
+
+
 def w_ascii(exe, doms, src):
     """all-ASCII domains: 6531 accepts only what the ASCII modes accept, same class; if it rejects what they accept the
     reason is an IDN-library error."""
@@ -127,6 +168,8 @@ def main(tier, seed):
     for d in list(neg):
         neg += [b"a." + d, d.replace(b".com", b".xn--p1ai")]
     jobs.append((w_negative, (exe, sorted(set(neg)), "negative")))
+    ip = TG.invalid_idn_pairs(tier, rng)
+    jobs += [(w_invalid_pairs, (exe, ip[i:i + 400], "invalid-u-labels")) for i in range(0, len(ip), 400)]
     jobs.append((w_negative, (exe, sorted(set(TG.IGNORABLE_IDN)), "ignorable", False)))
     for part in core.pmap(_run, jobs):
         rep.merge(part)
